@@ -80,7 +80,8 @@ theorem text_translate_colour_adapter (m : Mode) (d : Pt) (b : BCall)
 original shifted by `d`, natively (R2) and through the trait defaults (R1), for every style.
 (`FontBoxOK`: the strikethrough lies inside the character cell — true of all built-in fonts; the
 colour / spacing hypothesis excludes the transparent style with a spaced font, whose decorations
-are wider than the box — the observation recorded under C15.) -/
+span the trailing spacing and are wider than the box — observation (a) of DESIGN.md 14, outside
+every property.) -/
 theorem text_translate_picture (f : MonoFont) (atlas : Pt → Bool) (t : TextLayout.Text) (d : Pt) (B : Rect)
     (hok : FontBoxOK f)
     (hadv : t.style.textColor ≠ none ∨ t.style.bgColor ≠ none ∨ f.spacing = 0)
